@@ -5,4 +5,6 @@ import DateutilVerif.Properties.C04
 #print axioms C04.roundtrip_fixed
 #print axioms C04.inj_fixed
 #print axioms C04.offset_in_force_fixed
+#print axioms C04.roundtrip_range
 #print axioms C04.roundtrip_range_partial
+#print axioms C04.roundtrip_range_norule
